@@ -343,11 +343,15 @@ class Env:
             self.cv.wait(0.02)
         return True
 
+    def _past_wait(self):
+        """the main thread has left the wait loop (normally visible as program_finished.set())"""
+        return self.left_wait or bool(self.joins) or self.call_done
+
     def _quiescent(self, polls0):
         """the main thread has reacted to everything delivered so far"""
         if self.call_done or self.run_done or self.abort:
             return True
-        if not self.left_wait:
+        if not self._past_wait():
             return self.polls > polls0            # a full wait-loop iteration since
         k = self.joining
         if k in ("out", "err"):
@@ -420,7 +424,7 @@ class Env:
                     if self.exited is None:
                         self.exited = ev[1]
                     self.cv.notify_all()
-                    ok = self._wait(lambda: self.left_wait)
+                    ok = self._wait(self._past_wait)
                     self.consumed.append(idx)
                 elif kind == "exit_kbd":
                     if self.exited is None:
@@ -429,7 +433,7 @@ class Env:
                         self.kbd_after_reap = True
                     self.after_exit = True
                     self.cv.notify_all()
-                    ok = self._wait(lambda: self.left_wait)
+                    ok = self._wait(self._past_wait)
                     self.consumed.append(idx)
                 elif kind == "timer":
                     t = self.timer
@@ -440,7 +444,7 @@ class Env:
                         finally:
                             self.cv.acquire()
                         self.cv.notify_all()
-                        ok = self._wait(lambda: self.left_wait)
+                        ok = self._wait(self._past_wait)
                     self.consumed.append(idx)
                 elif kind in ("exc", "werr"):
                     who = ev[1]
